@@ -75,6 +75,7 @@ def hex_specs(n):
         spec('count_bits', 'hex.count_bits {n}, c, a', [ft], lambda v: ({'c': (v['c'] & ~sm) | bin(v['a']).count('1')}, ft), ('a', 'c'),
              'dst[:small_n] = x[:n].#on-bits')
     spec('mul', 'hex.mul {n}, c, a, b', [ft], lambda v: ({'c': (v['a'] * v['b']) & m}, ft), AB, 'res[:n] = a[:n] * b[:n]')
+    spec('mul_square', 'hex.mul {n}, c, a, a', [ft], lambda v: ({'c': (v['a'] * v['a']) & m}, ft), A, 'res = a * a (both factors are the same vector; used by the catalog programs)')
     spec('mul10', 'hex.mul10 {n}, a', [ft], lambda v: ({'a': (v['a'] * 10) & m}, ft), A, 'x[n] *= 10')
     spec('add_mul', 'hex.add_mul {n}, c, a, b', [ft], lambda v: ({'c': (v['c'] + v['a'] * (v['b'] & 0xf)) & m}, ft), ('a', 'b', 'c'),
          'res[n] += a[n] * b[1]')
